@@ -17,7 +17,16 @@ the tie-break the code really uses (additions at the end of Model/Selection.v, t
     table, and select_with (pick_pop table) (tag 1263) must return the implementation's list, gene by
     gene: the pops of the possibly stale sorted_utility_idx are what the model says they are.
 (D) _run_selection on an empty taxonomy_idx_array raises (ValueError): the [] of a parent without pairs
-    comes from the short-circuit only."""
+    comes from the short-circuit only.
+(E) genes_at_a_time = k in {2, 3, 5} (audit 3, A10; additions at the end of Model/SelectionK.v, tags
+    1264-1266): every parent with pairs is run through the real select_marker_genes_v2 twice - on its
+    downsampled array and as a behemoth on the full array - with the batches recorded (wrapper of
+    c12_batch.py).  The model computes the history along both recorded runs (tag 1264); the real
+    np.argsort of every array on which the code re-sorted is handed back as a table; select_with_k
+    (pick_pop table) (tag 1265) must reproduce both real lists gene by gene, and select_parent_k
+    (tag 1266: the per-parent entry, behemoth and not, same rule) must give the two real lists as well.
+    Property on the observed lists (c12_batch_threshold_irrelevant): the genes popped in the loop are
+    the same sequence in both runs, the desperate prefixes are permutations of each other."""
 import json
 import warnings
 
@@ -41,6 +50,12 @@ def _viol(ctx, cls, msg, desc, prop=False):
         ctx.violation(f'C12 (downsample part) fails on a generated case: {msg}'[:700], d)
     else:
         ctx.violation(f'model and implementation disagree ({cls}): {msg}'[:700], d, no_input=True)
+
+
+def _is_argsort(u, order):
+    """the hypothesis is_argsort of c12_numpy_rule_is_legal, on one array: a permutation of the indices with
+    non-decreasing values"""
+    return sorted(order) == list(range(len(u))) and all(u[a] <= u[b] for a, b in zip(order, order[1:]))
 
 
 def _world_desc(base, world, **kw):
@@ -130,6 +145,10 @@ def function_part(ctx, base, worlds):
         for flag, u, ch in h[1]:
             if flag:
                 order = [int(v) for v in np.argsort(np.array(u, dtype=np.int64))]    # int64 utility_array, default kind
+                if not _is_argsort(u, order):
+                    _viol(ctx, 'c12-ds:np-argsort-is-not-an-argsort', f'np.argsort({u}) = {order}',
+                          _world_desc(base, w, parent=(list(p) if p is not None else None)), prop=True)
+                ctx.dist('np_argsort_is_argsort', _is_argsort(u, order))
                 if [u, order] not in table:
                     table.append([u, order])
         arr_m, idx_m = m[1]
@@ -279,6 +298,141 @@ def stage_part(ctx, base, worlds):
             _viol(ctx, cls, problems[0][1], desc, prop=cls.startswith('c12-ds:'))
 
 
+# ------------------------------------------------------------------ (E): genes_at_a_time > 1, behemoth vs downsampled
+KS_BATCH = [2, 3, 5]
+
+
+def batch_part(ctx, base, worlds, all_k=False):
+    from cell_type_mapper.marker_selection.marker_array import MarkerGeneArray
+    from cell_type_mapper.marker_selection.selection import select_marker_genes_v2
+    from harness.props.c12_batch import recording
+    recs = []
+    counter = 0
+    for world, tree, ref in worlds:
+        if not (set(world['genes']) & set(world['query'])):
+            continue
+        rn = base.Renaming(world)
+        for parent in tree.all_parents:
+            leaves = tree.leaves_to_compare(parent)
+            if not leaves:
+                continue
+            for k in (KS_BATCH if all_k else [KS_BATCH[counter % len(KS_BATCH)]]):
+                counter += 1
+                n_per = world['n_per_utility']
+                if world['override'] and parent in world['override']:
+                    n_per = world['override'][parent]
+                obs = {'n_per': n_per, 'k': k}
+                try:
+                    with warnings.catch_warnings():
+                        warnings.simplefilter('ignore')
+                        arr = MarkerGeneArray.from_cache_path(cache_path=ref, query_gene_names=list(world['query']))
+                        ds = arr.downsample_pairs_to_other(only_keep_pairs=leaves)
+                        obs['genes'] = [str(g) for g in ds.gene_names]
+                        with recording() as r1:
+                            res = select_marker_genes_v2(marker_gene_array=ds, query_gene_names=list(world['query']),
+                                                         taxonomy_tree=tree, parent_node=parent, n_per_utility=n_per,
+                                                         genes_at_a_time=k)
+                        obs['ds'] = [[str(g) for g in res]] + [x for x in r1.split()]
+                        arr2 = MarkerGeneArray.from_cache_path(cache_path=ref, query_gene_names=list(world['query']))
+                        with recording() as r2:
+                            res2 = select_marker_genes_v2(marker_gene_array=arr2, query_gene_names=list(world['query']),
+                                                          taxonomy_tree=tree, parent_node=parent, n_per_utility=n_per,
+                                                          genes_at_a_time=k)
+                        obs['bh'] = [[str(g) for g in res2]] + [x for x in r2.split()]
+                    obs['ok'] = True
+                except Exception as e:
+                    obs['ok'] = False
+                    obs['msg'] = f'{exc_class(e)}: {e}'[:300]
+                recs.append((world, rn, tree, parent, obs))
+    q = lambda w, rn: [rn.gene[g] for g in w['query']]
+    first = ctx.model([c for w, rn, t, p, o in recs
+                       for c in ((1260, [rn.refmarkers(w), q(w, rn), rn.tree_sx(w['tree']), rn.parent(p)]),
+                                 (1203, [rn.refmarkers(w), q(w, rn), rn.tree_sx(w['tree']), rn.parent(p), True]))])
+    arrays = {}
+    second, where = [], []
+    for i, (w, rn, t, p, o) in enumerate(recs):
+        m_ds, m_bh = first[2 * i], first[2 * i + 1]
+        if not o['ok'] or m_ds[0] != 0 or m_bh[0] != 0:
+            continue
+        arr_m, idx_ds = m_ds[1]
+        g_bh, pd_bh, idx_bh = m_bh[1]
+        ng = len(arr_m[0])
+        arrays[i] = {'ds': (ng, [e[1] for e in arr_m[1]], idx_ds), 'bh': (len(g_bh), pd_bh, idx_bh)}
+        for side in ('ds', 'bh'):
+            a = arrays[i][side]
+            sel, pre, bat = o[side]
+            second.append((1264, [a[0], a[1], a[2], o['n_per'], o['k'], _names_to_idx(o['genes'], pre),
+                                  [_names_to_idx(o['genes'], b) for b in bat]]))
+            where.append((i, side))
+    hist = dict(zip(where, ctx.model(second)))
+    third, where3 = [], []
+    tables = {}
+    for i in arrays:
+        w, rn, t, p, o = recs[i]
+        table = []
+        for side in ('ds', 'bh'):
+            h = hist[(i, side)]
+            if h[0] != 0:
+                continue
+            for flag, u, ch in h[1]:
+                if flag:
+                    order = [int(v) for v in np.argsort(np.array(u, dtype=np.int64))]
+                    if not _is_argsort(u, order):
+                        _viol(ctx, 'c12-ds:np-argsort-is-not-an-argsort', f'np.argsort({u}) = {order}',
+                              _world_desc(base, w, parent=(list(p) if p is not None else None)), prop=True)
+                    ctx.dist('np_argsort_is_argsort', _is_argsort(u, order))
+                    if [u, order] not in table:
+                        table.append([u, order])
+        tables[i] = table
+        for side in ('ds', 'bh'):
+            a = arrays[i][side]
+            third.append((1265, [a[0], a[1], a[2], o['n_per'], o['k'], table]))
+            where3.append((i, side))
+        third.append((1266, [rn.refmarkers(w), q(w, rn), rn.tree_sx(w['tree']), rn.parent(p), o['n_per'], o['k'], table]))
+        where3.append((i, 'parent'))
+    out3 = dict(zip(where3, ctx.model(third)))
+    for i, (w, rn, t, p, o) in enumerate(recs):
+        desc = _world_desc(base, w, parent=(list(p) if p is not None else None), observed=o, part='E')
+        ctx.count(json.dumps(['ds-batch', w['table'], w['query'], str(p), o['k']]),
+                  nontrivial=bool(o['ok'] and len(o.get('genes', [])) >= 2 and len(o['ds'][2]) >= 1
+                                  and any(len(b) >= 2 for b in o['ds'][2])))
+        if not o['ok']:
+            _viol(ctx, 'c12-ds:implementation-raised', o['msg'], desc, prop=True)
+            continue
+        ctx.dist('batch_downsample_k', o['k'])
+        # property on the observed lists: same popped sequence, prefixes permutations of each other
+        if o['ds'][2] != o['bh'][2] or sorted(o['ds'][1]) != sorted(o['bh'][1]):
+            _viol(ctx, 'c12-ds:selection-depends-on-threshold-batch',
+                  f'k={o["k"]}: downsampled {o["ds"][1:]} behemoth {o["bh"][1:]}', desc, prop=True)
+        if i not in arrays:
+            _viol(ctx, 'corr:Selection.downsample_pairs', f'model refuses the arrays: {first[2 * i]} {first[2 * i + 1]}', desc)
+            continue
+        okc = True
+        for side in ('ds', 'bh'):
+            sel = _names_to_idx(o['genes'], o[side][0])
+            h = hist[(i, side)]
+            if h[0] != 0:
+                _viol(ctx, 'corr:SelectionK.hist_along_k', f'k={o["k"]} {side}: the recorded batches {o[side][1:]} are not a run of the model: {h}', desc)
+                okc = False
+                continue
+            pp = out3.get((i, side))
+            if pp is None or pp[0] != 0 or list(pp[1]) != sel:
+                _viol(ctx, 'corr:SelectionK.select_with_k-pick_pop',
+                      f'k={o["k"]} {side}: select_with_k (pick_pop np.argsort) gives {pp} but the implementation chose {sel}', desc)
+                okc = False
+        pr = out3.get((i, 'parent'))
+        if okc and pr is not None:
+            want = {'bh': _names_to_idx(o['genes'], o['bh'][0]), 'ds': _names_to_idx(o['genes'], o['ds'][0])}
+            for side, r in (('bh', pr[0]), ('ds', pr[1])):
+                if r[0] != 1 or r[2][0] != 0 or list(r[2][1]) != want[side]:
+                    _viol(ctx, 'corr:SelectionK.select_parent_k',
+                          f'k={o["k"]} {side}: select_parent_k gives {r}, the implementation {want[side]}', desc)
+                    okc = False
+        if okc:
+            ctx.traces_validated += 1
+            ctx.dist('batch_downsample_resorts', min(sum(1 for e in hist[(i, 'ds')][1] if e[0]), 8))
+
+
 # ------------------------------------------------------------------ (D)
 def empty_pairs_raise(ctx, base, worlds):
     from cell_type_mapper.marker_selection.marker_array import MarkerGeneArray
@@ -313,12 +467,16 @@ def run_part(ctx):
     from harness.props import c12 as base
     ctx.rule += ('; part downsample: same generator; (A)+(C) every parent with pairs: downsample_pairs_to_other, _get_taxonomy_idx, '
                  'select_marker_genes_v2 on the downsampled array, np.argsort pops; (B) select_all_markers, one random '
-                 '(workers, cut-off) per table, every parent; non-trivial = (A) >= 2 pairs kept and >= 2 genes, (B) >= 2 parents with pairs')
+                 '(workers, cut-off) per table, every parent; (E) every parent with pairs, behemoth and downsampled, genes_at_a_time in {2,3,5}; '
+                 'non-trivial = (A) >= 2 pairs kept and >= 2 genes, (B) >= 2 parents with pairs, (E) a batch of >= 2 genes was popped')
     ctx.assumptions += [
         'part downsample: only_keep_pairs = leaves_to_compare(parent) (no repetition; every pair is in the file): a file that '
         'lacks a pair of the parent (RuntimeError, PErrPair in the model) is not generated',
         'part downsample: np.argsort is taken from the installed numpy on an int64 array (the dtype of utility_array); the model '
-        'quantifies over every function of the array (pick_pop sorter)',
+        'quantifies over every function of the array (pick_pop sorter); the hypothesis is_argsort of c12_numpy_rule_is_legal '
+        '(a permutation of the indices, values non-decreasing) is checked on every np.argsort result handed to the model',
+        'part downsample (E): genes_at_a_time in {2, 3, 5}, one k per (table, parent) in rotation; queries without any '
+        'reference gene are skipped there (covered by (B))',
     ]
     import time
     t0 = time.time()
@@ -330,6 +488,7 @@ def run_part(ctx):
         worlds, d = base.make_worlds(ctx, m, f'ds_{done}')
         function_part(ctx, base, worlds)
         stage_part(ctx, base, worlds[:max(1, (2 * m) // 3)])
+        batch_part(ctx, base, worlds)
         if first:
             empty_pairs_raise(ctx, base, worlds)
             first = False
